@@ -311,6 +311,20 @@ func init() {
 	models["(*"+etreePkg+".Document).WriteToString"] = func(in *Interp, fn *ssa.Function, a []Value) Value {
 		return Tuple{serialise(in, a[0].(*Ptr)), nilError()}
 	}
+	// WriteTo(w): the same bytes appended to a bytes.Buffer / strings.Builder destination
+	models["(*"+etreePkg+".Document).WriteTo"] = func(in *Interp, fn *ssa.Function, a []Value) Value {
+		w, _ := a[1].(*Iface)
+		if w == nil || w.T == nil {
+			in.goPanic("Document.WriteTo(nil writer)")
+		}
+		ts := types.TypeString(w.T, nil)
+		if ts != "*bytes.Buffer" && ts != "*strings.Builder" {
+			in.end("unmodelled", "etree Document.WriteTo a %s at %s", ts, in.where())
+		}
+		c := serialise(in, a[0].(*Ptr))
+		in.bufAppend(w.V, c)
+		return Tuple{BLen(c), nilError()}
+	}
 	// vSerialised(doc): the serialisation term of the document as it is now (specification side)
 	intrinsics["vSerialised"] = func(in *Interp, fn *ssa.Function, a []Value) Value {
 		return serialise(in, a[0].(*Ptr))
@@ -459,6 +473,14 @@ func (in *Interp) xmlUnmarshalConv(content *smt.Term, target Value, charsetReade
 		return in.opaqueError("xml-unmarshal-nonpointer")
 	}
 	d := in.lookupDoc(content)
+	if d == nil && content.Op == "str.++" && len(content.Args) > 0 {
+		// several documents one after the other (e.g. a reused buffer that still holds an earlier one): the decoder
+		// reads the first element and never looks at what follows
+		if first := in.lookupDoc(content.Args[0]); first != nil && first.Root != nil {
+			in.event("xml.Unmarshal over concatenated documents decodes the first one")
+			d = first
+		}
+	}
 	if d == nil {
 		// arbitrary bytes (e.g. a compressed stream tried as XML): the decoder fails, but only after it has decoded
 		// whatever well-formed prefix the bytes happen to start with
